@@ -496,6 +496,35 @@ LENGTH_OPS = [(b"T", 4), (b"X", 4), (b"B", 4), (b"\x96", 8), (b"U", 1), (b"C", 1
 HUGE = [0, 1, 255, 256, 65535, 65536, 2 ** 31 - 1, 2 ** 31, 2 ** 31 + 1, 2 ** 32 - 1, 2 ** 63 - 1, 2 ** 63, 2 ** 63 + 1, 2 ** 64 - 1]
 
 
+WELL_KNOWN_GLOBALS = [(b"collections", b"OrderedDict"), (b"collections", b"defaultdict"), (b"collections", b"deque"), (b"builtins", b"set"),
+                      (b"__builtin__", b"set"), (b"builtins", b"frozenset"), (b"__builtin__", b"frozenset"), (b"builtins", b"list"),
+                      (b"builtins", b"dict"), (b"__builtin__", b"dict"), (b"builtins", b"tuple"), (b"builtins", b"object"), (b"__builtin__", b"object"),
+                      (b"builtins", b"str"), (b"__builtin__", b"unicode"), (b"builtins", b"int"), (b"__builtin__", b"long"), (b"builtins", b"float"),
+                      (b"builtins", b"complex"), (b"builtins", b"bytes"), (b"__builtin__", b"bytes"), (b"builtins", b"bytearray"),
+                      (b"__builtin__", b"bytearray"), (b"copy_reg", b"_reconstructor"), (b"copyreg", b"_reconstructor"), (b"copyreg", b"__newobj__"),
+                      (b"datetime", b"datetime"), (b"decimal", b"Decimal"), (b"array", b"array"), (b"_codecs", b"encode"), (b"codecs", b"encode"),
+                      (b"persistent.mapping", b"PersistentMapping"), (b"BTrees.OOBTree", b"OOBTree"), (b"zodbpickle", b"binary"),
+                      (b"ogorek", b"Dict"), (b"__main__", b"Foo")]
+
+
+def well_known_call_programs(tuple_args_only=False):
+    """REDUCE of the classes picklers commonly name, with the argument shapes they use - nothing but the documented
+    bytes / bytearray forms is interpreted; everything else stays a Call (or is an error)."""
+    out = []
+    args = [b")", b"(t", b"(]t", b"(}t", b"(K\x01t", b"(Vab\nt", b"(]K\x01at", b"(C\x02abt", b"(Vab\nVlatin1\nt", b"((K\x01K\x02tt"]
+    if not tuple_args_only:
+        args += [b"]", b"}", b"N"]      # not an argument tuple: ill-formed (CPython happens to accept any iterable)
+    for m, n in WELL_KNOWN_GLOBALS:
+        for a in args:
+            for pre in (b"", b"\x80\x02", b"\x80\x03", b"\x80\x04"):
+                out.append(pre + b"c" + m + b"\n" + n + b"\n" + a + b"R.")
+            out.append(b"\x80\x04\x8c" + bytes([len(m)]) + m + b"\x8c" + bytes([len(n)]) + n + b"\x93" + a + b"R.")
+        out.append(b"}K\x01c" + m + b"\n" + n + b"\n)Rs.")
+        out.append(b"c" + m + b"\n" + n + b"\n)R(K\x01K\x02u.")
+        out.append(b"c" + m + b"\n" + n + b"\n)R(K\x01e.")
+    return out
+
+
 def pad_to(n):
     """Balanced, harmless instructions of total length n >= 2 (push None / a small int, pop it again)."""
     if n % 2:
